@@ -23,6 +23,21 @@ UNDER_CONSTRUCTION = "machinery for this property is still under construction in
 NOT_APPLICABLE = {("C%02d" % i): UNDER_CONSTRUCTION for i in range(1, 21)}
 
 PROPS = {
+    "C05": {
+        "level_text": "Machine-checked theorems (Lean 4 kernel) about the limb-level kernels of field.go as REGENERATED from /repo on every run (tools/gotr T1 -> Secp.Gen.FieldIR, Go wrap-around semantics evalW): Mul2/SquareVal exact mod P with no intermediate wrap for operands of magnitude <= 8; Normalize returns the unique representative in [0,P) for EVERY uint32 limb vector; NegateVal/Add/Add2/AddInt/MulInt exact within uint32 capacity (magnitudes <= 63); SetBytes/PutBytesUnchecked exact with overflow flag iff >= P; IsZero/IsOne/IsOdd/Equals/IsGtOrEqPrimeMinusOrder equal their arithmetic definitions; alias safety of every kernel. No-wrap is a reflective interval analysis (bnd, proved sound once) decided by `decide +kernel` on the regenerated program; congruences by omega/ring. Also: each regenerated kernel is executed by the Lean driver on raw limb vectors (boundary classes, carry windows) and diffed against the real function through verif hooks.",
+        "level_note": "Trusted: Lean kernel; tools/gotr prints what go/ast+go/types say (its output is additionally executed against the real functions on every run); Go integer semantics. Magnitude is formalised with per-limb slack (limb <= m*(2^26+2^20)), which is what Mul2's output actually satisfies; the theorems cover magnitudes up to 63, not the documented 64 (MulInt(64) of a Mul2 output can exceed uint32; see DESIGN.md F3/O5). Inverse/SquareRootVal chains are covered at formula level in C16 (exponents) rather than here.",
+        "technique": "Lean 4 proof about regenerated deep-embedded kernels (reflective interval analysis + omega congruences) + raw-limb differential run",
+        "trusted_base": COMMON_TRUST + ["tools/gotr T1 translation (regenerated every run, executed against the real kernels)"],
+        "assumptions": ["operands respect the stated magnitude bounds (<= 8 for Mul2/SquareVal, <= 63 elsewhere)"],
+    },
+    "C16": {
+        "generator": "C16",
+        "level_text": "Static for-all over every execution path: tools/gotr T2 regenerates from /repo every path of addZ1AndZ2EqualsOne, addZ1EqualsZ2, addZ2EqualsOne, addGeneric, doubleZ1EqualsOne, doubleGeneric, AddNonConst (x3 alias patterns), DoubleNonConst (x2), ToAffine (with the inversion chain), isOnCurve, DecompressY, Inverse, SquareRootVal as lists of FieldVal operations and predicate tests; the Lean abstract interpreter absPath over (magnitude, normalised?) rejects any NegateVal with too small a magnitude argument, any Add/MulInt exceeding magnitude 63, any Mul/Square operand above 8 and any Equals/IsZero/IsOne/IsOdd on a value not known to be normalised; `decide +kernel` shows all paths pass and results end normalised. The same regenerated programs are run at value level by the Lean driver and diffed against the real routines (all relation classes x Z patterns x alias patterns).",
+        "level_note": "Trusted: Lean kernel; tools/gotr T2 (regenerated every run; its programs are executed against the real routines); the per-operation meaning of 'magnitude' is tied to limbs by C05's kernel theorems (the soundness theorem linking absPath to limb execution is stated in DESIGN.md as future work: today C16 proves the abstract contract is respected on every path, C05 proves each operation exact under that contract). Signature/Schnorr routines' field segments are not yet extracted.",
+        "technique": "Lean 4 `decide +kernel` of an abstract interpreter on regenerated path programs + differential run of the same programs",
+        "trusted_base": COMMON_TRUST + ["tools/gotr T2 path extraction (regenerated every run, executed against the real routines)"],
+        "assumptions": ["inputs to point routines are normalised (their documented contract)"],
+    },
     "C08": {
         "level_text": "Machine-checked theorems (Lean 4 kernel, Mathlib ZMod P with a Pratt-certificate proof that P is prime) for ALL byte strings about a hand-written model of ParsePubKey / Serialize* / schnorr.ParsePubKey: never panics; accepts exactly the valid SEC1 compressed/uncompressed/hybrid encodings of curve points with coordinates < P (using Euler's criterion for the square-root test and that -7 is not a cube mod P), returns that very point, never an off-curve key; each error kind names a rule really violated; all serialise/parse round trips incl. byte-for-byte reproduction of canonical inputs. Tied to the code by a correspondence run: all 256 tag bytes x both lengths, lengths 0..70, x >= P, non-residue x, flipped / mismatched-parity / off-curve y, bit flips; every op is also compared with a specification-level verdict computed independently of the model.",
         "level_note": "Trusted: Lean kernel + Mathlib definitions of ZMod/IsSquare; hand-written model mirrors pubkey.go (validated on generated inputs); field arithmetic inside the parser is modelled at value level (x, y as naturals mod P) - the limb level is C05/C16.",
